@@ -686,6 +686,10 @@ class EvalFunc:
                     local_names=self.local_names,
                 )
             )
+        #
+        # a global declaration applies to the whole function body, wherever it appears
+        #
+        self.global_names.update(global_names)
         for var_name in var_names:
             got_dot = var_name.find(".")
             if got_dot >= 0:
